@@ -7,8 +7,9 @@ EXTENDS Fut, MO_Fut
 MOf(site) == MO[site]
 
 O(op, n) == [op |-> op, n |-> n]
-FutCfg(prog) == [mode |-> "fut", count |-> 0, prog |-> prog]
-LatchCfg(count, prog) == [mode |-> "latch", count |-> count, prog |-> prog]
+FutCfg(prog) == [mode |-> "fut", count |-> 0, spur |-> FALSE, fx0 |-> 0, prog |-> prog]
+FutCfgS(prog) == [mode |-> "fut", count |-> 0, spur |-> TRUE, fx0 |-> 0, prog |-> prog]
+LatchCfg(count, prog) == [mode |-> "latch", count |-> count, spur |-> FALSE, fx0 |-> 0, prog |-> prog]
 
 HUGE == 100
 SV == <<O("sv", 7)>>
@@ -18,8 +19,9 @@ Few == {O("get", 0), O("wf", 1), O("of", 0), O("rd", 0)}
 
 \* 1 setter + 2 others: every ordered pair
 Cfg_2 == { FutCfg(<<SV, <<a>>, <<b>> >>) : a \in Others, b \in Others }
-\* 1 setter + 3 others: the reduced alphabet (canonical order does not matter: threads are symmetric, all triples are there)
-Cfg_3 == { FutCfg(<<SV, <<a>>, <<b>>, <<c>> >>) : a \in Few, b \in Few, c \in Few }
+\* 1 setter + 3 others: the reduced alphabet (threads are symmetric: multisets)
+F4 == <<O("get", 0), O("wf", 1), O("of", 0), O("rd", 0)>>
+Cfg_3 == { FutCfg(<<SV, <<F4[p[1]]>>, <<F4[p[2]]>>, <<F4[p[3]]>> >>) : p \in {q \in (1..4) \X (1..4) \X (1..4) : q[1] <= q[2] /\ q[2] <= q[3]} }
 \* all triples over the full alphabet (thorough)
 Cfg_3full == { FutCfg(<<SV, <<a>>, <<b>>, <<c>> >>) : a \in Others, b \in Others, c \in Others }
 \* threads that do two things; the setter registering its own callback; no setter at all
@@ -36,13 +38,40 @@ Cfg_latch == { LatchCfg(2, << <<O("cd", 1)>>, <<O("cd", 1)>>, <<a>>, <<b>> >>) :
          \cup { LatchCfg(0, << <<a>>, <<b>> >>) : a \in LObs, b \in LObs }
          \cup { LatchCfg(1, << <<O("cd", 1)>>, <<a>> >>) : a \in LObs }
 
-Cfg_sc == Cfg_2 \cup Cfg_3 \cup Cfg_seq \cup Cfg_latch
+\* ---- quick families (threads are symmetric: unordered pairs)
+Q5 == <<O("get", 0), O("wf", 1), O("of", 0), O("th", 0), O("rd", 0)>>
+Cfg_q2 == { FutCfg(<<SV, <<Q5[i]>>, <<Q5[j]>> >>) : <<i, j>> \in {p \in (1..5) \X (1..5) : p[1] <= p[2]} }
+       \cup { FutCfg(<<SV, <<O("wf", n)>>, <<O("rd", 0)>> >>) : n \in {-1, 0, HUGE} }
+Cfg_q3 == { FutCfg(<<SV, <<O("of", 0)>>, <<O("th", 0)>>, <<O("rd", 0)>> >>) }
+Cfg_qseq == { FutCfg(<< <<O("of", 0), O("sv", 7), O("of", 0)>>, <<O("get", 0)>> >>),
+              FutCfg(<< <<O("sl", 2), O("sv", 7)>>, <<O("wf", 1), O("wf", 3)>> >>),
+              FutCfg(<< <<O("wf", 1)>>, <<O("of", 0), O("rd", 0)>> >>),
+              FutCfg(<<SV, <<O("of", 0), O("get", 0)>>, <<O("rd", 0), O("of", 0)>> >>) }
+Cfg_qlatch == { LatchCfg(2, << <<O("cd", 1)>>, <<O("cd", 1)>>, <<a>> >>) : a \in LObs }
+          \cup { LatchCfg(2, << <<O("cd", 1)>>, <<a>> >>) : a \in LObs \ {O("get", 0)} }
+          \cup { LatchCfg(0, << <<a, b>> >>) : a \in LObs, b \in {O("of", 0), O("rd", 0)} }
+          \cup { LatchCfg(3, << <<O("cd", 2)>>, <<O("cd", 1)>>, <<O("rd", 0), O("of", 0)>> >>) }
+\* spurious failure of the weak compare-exchange
+Cfg_spur == { FutCfgS(<<SV, <<O("of", 0)>>, <<a>> >>) : a \in {O("of", 0), O("get", 0), O("rd", 0)} }
+Cfg_sc == Cfg_q2 \cup Cfg_q3 \cup Cfg_qseq \cup Cfg_qlatch \cup Cfg_spur
+\* KNOWN FINDING (findings/C08_waiter_counter_overflow.md): the waiter counter shares the futex word with READY_MASK and
+\* is incremented by every slow-path wait, also those that time out: 2^31 - fx0 more polls carry into the READY bit
+Cfg_overflow == { [mode |-> "fut", count |-> 0, spur |-> FALSE, fx0 |-> READY - 2, prog |-> << <<O("wf", 0), O("wf", 0), O("get", 0)>> >>],
+                  [mode |-> "fut", count |-> 0, spur |-> FALSE, fx0 |-> READY - 2, prog |-> << <<O("wf", 0), O("rd", 0)>>, <<O("wf", 1), O("of", 0)>> >>] }
+\* liveness (tiny)
+Cfg_live == { FutCfg(<<SV, <<O("get", 0)>>, <<O("wf", 1)>> >>), FutCfg(<<SV, <<O("of", 0)>>, <<O("get", 0)>> >>),
+              FutCfg(<<SV, <<O("get", 0)>>, <<O("get", 0)>> >>), LatchCfg(2, << <<O("cd", 1)>>, <<O("cd", 1)>>, <<O("get", 0)>> >>) }
+\* ---- thorough
+Cfg_full == Cfg_2 \cup Cfg_3 \cup Cfg_seq \cup Cfg_latch
+         \cup { FutCfgS(<<SV, <<O("of", 0)>>, <<O("of", 0)>>, <<a>> >>) : a \in {O("of", 0), O("get", 0)} }
 \* weak memory family (3 threads)
 WmOthers == {O("get", 0), O("wf", 1), O("of", 0), O("rd", 0)}
-Cfg_wm == { FutCfg(<<SV, <<a>>, <<b>> >>) : a \in WmOthers, b \in WmOthers }
+W4 == <<O("get", 0), O("wf", 1), O("of", 0), O("rd", 0)>>
+Cfg_wm == { FutCfg(<<SV, <<W4[i]>>, <<W4[j]>> >>) : <<i, j>> \in {p \in (1..4) \X (1..4) : p[1] <= p[2]} }
        \cup { FutCfg(<<SV, <<O("of", 0), O("get", 0)>> >>), FutCfg(<<SV, <<O("get", 0), O("of", 0)>> >>), FutCfg(<<SV, <<O("rd", 0), O("of", 0)>> >>) }
-       \cup { LatchCfg(2, << <<O("cd", 1)>>, <<O("cd", 1)>>, <<a>> >>) : a \in WmOthers }
+       \cup { LatchCfg(2, << <<O("cd", 1)>>, <<O("cd", 1)>>, <<a>> >>) : a \in {O("get", 0), O("of", 0)} }
 Cfg_wm3 == { FutCfg(<<SV, <<a>>, <<b>>, <<c>> >>) : a \in WmOthers, b \in WmOthers, c \in WmOthers }
+        \cup { LatchCfg(2, << <<O("cd", 1)>>, <<O("cd", 1)>>, <<a>>, <<b>> >>) : a \in WmOthers, b \in WmOthers }
 
 Next == \/ \E t \in Thr : Step(t, MOf) \/ FireMC(t)
         \/ (AllDone /\ UNCHANGED vars)
@@ -53,6 +82,6 @@ FairSpec == Spec /\ \A t \in 1..4 : WF_vars(t \in Thr /\ (Step(t, MOf) \/ FireMC
 View == <<cfg, ms, pc, L, H, nx, now>>
 
 \* with a set_value in a program whose callbacks do not block, everybody finishes
-HasSetter == \E t \in Thr : \E i \in 1..Len(cfg.prog[t]) : cfg.prog[t][i].op = "sv"
+HasSetter == \E t \in Thr : \E i \in 1..Len(cfg.prog[t]) : cfg.prog[t][i].op \in {"sv", "cd"}
 Termination == HasSetter => <>[]AllDone
 =============================================================================
